@@ -1135,3 +1135,91 @@ def rule_trim_closed_only(db, chk, cfg, rule="TRIM.closed-only"):
     if n < 1:
         raise AnalysisBroken("TRIM.closed-only: no call of TrimHorz found")
     return n
+
+
+# ---------------------------------------------------------------------------
+# OWNER.reparent: SetOwner keeps the forest a forest and never loses the nesting of the ring it re-attaches (C04)
+# ---------------------------------------------------------------------------
+
+def rule_owner_reparent(db, chk, cfg, rule="OWNER.reparent"):
+    """SetOwner(outrec, new_owner) is the one place where the tentative ownership forest is re-linked.  It is executed on every
+    forest over four records (owner of each: none or one of the others, acyclic; the two bystanders dead or alive) with
+    outrec = A, new_owner = B, and the resulting heap must satisfy: A's owner is B; the forest is still acyclic; no bystander was
+    re-linked; and B's live ancestors are what they were - or, when B hung below A (the link would close a cycle), what A's were:
+    the merged ring stays nested in whatever contained it.  RecursiveCheckOwners only ever climbs these links, so a ring cut loose
+    here is reported as a top-level polygon in the tree while the paths output is unaffected."""
+    from ..evalx import Interp, Unsupported, _Return, Ref
+    import itertools
+    f = db.one("SetOwner")
+    if len(f.params) != 2:
+        raise AnalysisBroken("%s: SetOwner(outrec, new_owner) expected" % rule)
+    p_out, p_new = f.params[0]["name"], f.params[1]["name"]
+    nodes = ["A", "B", "C", "D"]
+    n = bad = 0
+    first = None
+
+    def chain(own, x):
+        out = []
+        seen = set()
+        y = own[x]
+        while y is not None:
+            if y in seen:
+                return None
+            seen.add(y)
+            out.append(y)
+            y = own[y]
+        return out
+
+    for owners in itertools.product(*[[None] + [m for m in nodes if m != x] for x in nodes]):
+        own = dict(zip(nodes, owners))
+        if any(chain(own, x) is None for x in nodes):
+            continue
+        for live in itertools.product((True, False), repeat=2):
+            pts = {"A": True, "B": True, "C": live[0], "D": live[1]}
+            env = {p_out: Ref("A"), p_new: Ref("B")}
+            for x in nodes:
+                env[x + ".owner"] = Ref(own[x]) if own[x] else None
+                env[x + ".pts"] = Ref("pts_" + x) if pts[x] else None
+                env["pts_" + x + ".x"] = 0
+            it = Interp(db, env, [])
+            it.concrete_loops = True
+            it.heap = True
+            try:
+                it.exec(f.body)
+            except _Return:
+                pass
+            except Unsupported as e:
+                raise AnalysisBroken("%s: cannot interpret SetOwner: %s" % (rule, e))
+            n += 1
+            after = {}
+            for x in nodes:
+                v = it.env.get(x + ".owner")
+                after[x] = v.name if isinstance(v, Ref) else None
+            why = None
+            if after["A"] != "B":
+                why = "outrec's owner is %s, not new_owner" % after["A"]
+            elif any(chain(after, x) is None for x in nodes):
+                why = "the owner links form a cycle"
+            elif any(after[x] != own[x] for x in ("C", "D")):
+                why = "a record that is neither outrec nor new_owner was re-linked"
+            else:
+                livef = lambda lst: [y for y in lst if pts[y]]
+                before_b = chain(own, "B")
+                want = livef(chain(own, "A")) if "A" in before_b else livef(before_b)
+                got = livef([y for y in chain(after, "B")])
+                if got != want:
+                    why = ("new_owner's live ancestors become %s; %s they must be %s" % (got or "none (top level)",
+                           "it hung below outrec, so" if "A" in before_b else "it did not hang below outrec, so", want or "none"))
+            if why:
+                bad += 1
+                if first is None:
+                    first = (dict(own), dict(pts), why)
+    chk.instance(rule, {"function": f.qual, "heaps": n, "wrong": bad, "cfg": cfg}, ok=not bad)
+    if bad:
+        own, pts, why = first
+        chk.violation(rule, f.qual, "heap", "SetOwner(A, B) breaks the ownership forest on %d of %d heaps, e.g. owners %s (%s dead): %s - in tree output the ring is "
+                      "reported at the wrong level (the paths output does not use these links)"
+                      % (bad, n, ", ".join("%s->%s" % (k, v or "none") for k, v in own.items()), ", ".join(k for k, v in pts.items() if not v) or "none", why), f.where, cfg=cfg)
+    if n < 100:
+        raise AnalysisBroken("%s: only %d heaps enumerated" % (rule, n))
+    return n
